@@ -249,6 +249,10 @@ structure CloseFaults where
   header : Option Nat := none
   deriving DecidableEq, Repr
 
+/-- the fault entries of one `Close` as the machine consumes them: in statement order -/
+def CloseFaults.toList (cf : CloseFaults) : List (Option Nat) :=
+  [cf.flush, cf.seekBody, cf.copy, cf.seekStart, cf.header]
+
 /-- `ret == nil { ret = err }`: the FIRST error is kept -/
 def keepFirst (ret err : Option FErr) : Option FErr :=
   match ret with
